@@ -528,8 +528,17 @@ pub fn worker(check: &Check, tier: Tier, seed: u64, idx: u64, n: u64, known: &[S
     let mut failures: Vec<Value> = vec![];
     let mut known_hits: Vec<Value> = vec![];
     let mut samples: Vec<Value> = vec![];
-    let mut i = idx;
-    while i < total_cases {
+    // rotated blocks rather than a plain stride (which aliases with the scenario weights)
+    let mut q = 0u64;
+    loop {
+        let i = q * n + (idx + q) % n;
+        q += 1;
+        if i >= total_cases {
+            if (q - 1) * n >= total_cases {
+                break;
+            }
+            continue;
+        }
         let scn = check.scenario_for(i);
         let case_seed = splitmix(seed, i);
         let mut rng = Rng::new(case_seed);
@@ -552,7 +561,6 @@ pub fn worker(check: &Check, tier: Tier, seed: u64, idx: u64, n: u64, known: &[S
                 }
             }
         }
-        i += n;
     }
     for (sig, text) in &total.known {
         if known_hits.len() < 8 {
